@@ -764,6 +764,21 @@ pub fn call(env: &mut Env, c: &Value) -> Value {
         }
         "linc" | "linc_by" | "lget" | "lreset" | "lflush" | "lobserve" | "lclear" | "lcount" | "lsum" => {
             let v = c.get("v").map(fparse).unwrap_or(0.0);
+            if op == "lflush" && c.get("via").and_then(|x| x.as_str()) == Some("trait") {
+                // the flush as a holder of `&dyn LocalMetric` (a list of mixed local metrics flushed in a loop) makes it
+                use prometheus::local::LocalMetric;
+                let m: &dyn LocalMetric = match env.get(s(c, "obj")).unwrap_or_else(|| panic!("harness: no slot {}", s(c, "obj"))) {
+                    Slot::LCounter(x) => x,
+                    Slot::LICounter(x) => x,
+                    Slot::LHist(x) => x,
+                    Slot::LCVec(x) => x,
+                    Slot::LICVec(x) => x,
+                    Slot::LHVec(x) => x,
+                    _ => panic!("harness: lflush on non-local slot"),
+                };
+                m.flush();
+                return ok0();
+            }
             match env.get(s(c, "obj")).unwrap_or_else(|| panic!("harness: no slot {}", s(c, "obj"))) {
                 Slot::LCounter(x) => match op {
                     "linc" => { x.inc(); ok0() }
